@@ -8,6 +8,7 @@ import (
 	"go/constant"
 	"go/token"
 	"math/big"
+	"regexp"
 	"strings"
 
 	"golang.org/x/tools/go/ssa"
@@ -90,16 +91,34 @@ func ruleWAddr(c *Ctx) {
 				fmt.Sprintf("the address payload is no longer version byte 0x%s . hash: %v (%s), hash taken from %s", ver, got, why, shorten(hashTerm, 120)))
 		}
 	}
-	// validator: checksum over bytes 0..21, embedded checksum = bytes 21..25, both compared
-	if fn := get("*a25", "computeChecksum"); fn != nil {
-		calls, _, _ := termsOfCalls(fn)
-		ok := len(calls) == 2 && calls[0] == "Sha256d(p0[0:21])" && strings.HasPrefix(calls[1], "copy(alloc#0[0:len(alloc#0)], github.com/libsv/go-bk/crypto.Sha256d(p0[0:21])")
-		c.Check(ok, "W-addr", "a25.computeChecksum", fn.Pos(), "SHA256d over version . hash (bytes 0..21), first four bytes (the result array holds four)", "the validator no longer computes the checksum over bytes 0..21: "+strings.Join(calls, "; "))
-	}
-	if fn := get("*a25", "embeddedChecksum"); fn != nil {
-		calls, _, _ := termsOfCalls(fn)
-		ok := len(calls) == 1 && calls[0] == "copy(alloc#0[0:len(alloc#0)], p0[21:len(p0)])"
-		c.Check(ok, "W-addr", "a25.embeddedChecksum", fn.Pos(), "the embedded checksum is bytes 21..25", "the validator no longer reads the embedded checksum from bytes 21..25: "+strings.Join(calls, "; "))
+	// validator: checksum over bytes 0..21, embedded checksum = bytes 21..25 (in validA58 itself or in the
+	// two small methods it may delegate to; the 25-byte accumulator is called A here)
+	{
+		var calls []string
+		norm := regexp.MustCompile(`\bp0\b|alloc#\d+`)
+		for _, spec := range [][2]string{{"", "validA58"}, {"*a25", "computeChecksum"}, {"*a25", "embeddedChecksum"}} {
+			fn := c.P.Func("bscript", spec[0], spec[1])
+			if fn == nil {
+				continue
+			}
+			cs, _, _ := termsOfCalls(fn)
+			for _, cl := range cs {
+				calls = append(calls, norm.ReplaceAllString(cl, "A"))
+			}
+		}
+		okSha, okCopySha, okEmb := false, false, false
+		for _, cl := range calls {
+			switch {
+			case cl == "Sha256d(A[0:21])":
+				okSha = true
+			case strings.HasPrefix(cl, "copy(A[0:len(A)], github.com/libsv/go-bk/crypto.Sha256d(A[0:21])"):
+				okCopySha = true
+			case cl == "copy(A[0:len(A)], A[21:len(A)])" || cl == "copy(A[0:len(A)], A[21:25])":
+				okEmb = true
+			}
+		}
+		c.Check(okSha && okCopySha, "W-addr", "a25.computeChecksum", token.NoPos, "SHA256d over version . hash (bytes 0..21), first four bytes (the result array holds four)", "the validator no longer computes the checksum over bytes 0..21: "+strings.Join(calls, "; "))
+		c.Check(okEmb, "W-addr", "a25.embeddedChecksum", token.NoPos, "the embedded checksum is bytes 21..25", "the validator no longer reads the embedded checksum from bytes 21..25: "+strings.Join(calls, "; "))
 	}
 	// the string is validated as given (helpers ValidateAddress was split into are read as part of it)
 	if fn := get("", "ValidateAddress"); fn != nil {
